@@ -5,7 +5,7 @@ Import ListNotations.
 Open Scope Z_scope.
 
 Definition wrZ := write_real Z Z Znz Zfmt.
-Definition rdZ := read_real Z Z Zparse.
+Definition rdZ := read_real Z Z 0 Zparse.
 
 Example real_dh : (d <- wrZ (mkReal 3 2 2 [1; 0] [[0; 2]; [2; 0]]) ;; rdZ d) = Ok (mkReal 3 2 2 [1; 0] [[0; 2]; [2; 0]]).
 Proof. reflexivity. Qed.
@@ -35,4 +35,18 @@ Proof. reflexivity. Qed.
 Example sm_rt :
   (d <- write_sm Z Z Zfmt Z (fun z => z) (fun z => negb (Znz z)) (mkSm (mkSv [(4, 1); (8, 2)] 9) 2 2 1 3 1 3) ;;
    read_sm Z Z Znz Zparse d) = Ok (mkSm (mkSv [(0, 1); (3, 2)] 4) 2 2 0 2 0 2).
+Proof. reflexivity. Qed.
+
+(* since 500dcc2: zero gradient + non-zero Hessian comes back with a zero gradient of the right length *)
+Example real_h : (d <- wrZ (mkReal 3 2 2 [0; 0] [[0; 2]; [2; 0]]) ;; rdZ d) = Ok (mkReal 3 2 2 [0; 0] [[0; 2]; [2; 0]]).
+Proof. reflexivity. Qed.
+(* since b9c30c8: the Hessian must be N x N *)
+Example real_ragged : rdZ (SObj 1 (Some [1]) (Some [[1; 2]; [3]])) = Err.
+Proof. reflexivity. Qed.
+(* since a328708 / d37b260: malformed containers are errors *)
+Example sv_bad : map (read_sv Z Z Znz Zparse) [mkSvDoc [1] [1] 1; mkSvDoc [0; 0] [0; 1] 1; mkSvDoc [-1] [1] 1; mkSvDoc [] [] (-1)] = [Err; Err; Err; Err].
+Proof. reflexivity. Qed.
+Example dm_bad : map (read_dm Z Z (read_plain Z Z Zparse) true) [mkDmDoc [] 1 1; mkDmDoc [] (-1) 0] = [Err; Err].
+Proof. reflexivity. Qed.
+Example sm_bad : map (read_sm Z Z Znz Zparse) [mkSmDoc [1] [1] 1 1; mkSmDoc [-1] [1] 1 1; mkSmDoc [] [] (2^32) (2^32)] = [Err; Err; Err].
 Proof. reflexivity. Qed.
